@@ -28,6 +28,7 @@ SlackMs == 50
 MonInit ==
   [viol |-> "", closeCalled |-> FALSE, closeRet |-> FALSE, lastNote |-> "none",
    cur |-> 0,               \* latest accepted connection
+   curReported |-> FALSE,   \* CONNECTED was notified since it was accepted
    reading |-> 0,           \* connection with an outstanding read (0 = none)
    faulted |-> FALSE,       \* the current connection failed and DISCONNECTED was not reported yet
    lastRefuseT |-> -1,      \* time of the refusal that ended the previous attempt (-1: none pending)
@@ -62,7 +63,9 @@ MonStep(m, ev) ==
            THEN Fail(m2, "C14.link-not-shut-when-close-returned") ELSE m2
     [] ev.e = "Open" ->
          LET m2 == IF m1.closeCalled THEN Fail(m1, "C14.open-after-close") ELSE m1
-             m3 == IF m2.faulted THEN Fail(m2, "C13.reconnect-without-reporting-DISCONNECTED") ELSE m2
+             \* (a link that fails before it was ever reported CONNECTED - the serial client's configuration write inside
+             \*  the connect attempt - leaves the user's view at DISCONNECTED: there is no change to report)
+             m3 == IF m2.faulted /\ m2.lastNote = "CONNECTED" THEN Fail(m2, "C13.reconnect-without-reporting-DISCONNECTED") ELSE m2
              d  == ev.t - m3.lastRefuseT
          IN IF m3.lastRefuseT < 0 THEN m3
             ELSE IF d <= 0 THEN Fail(m3, "C13.retry-without-delay")
@@ -74,14 +77,17 @@ MonStep(m, ev) ==
             ELSE [m3 EXCEPT !.prevDelay = d, !.lastRefuseT = -1]
     [] ev.e = "OpenResult" ->
          IF ev.r = "refuse" THEN [m1 EXCEPT !.lastRefuseT = ev.t]
-         ELSE LET m2 == [m1 EXCEPT !.cur = ev.k, !.prevDelay = 0, !.lastRefuseT = -1, !.faulted = FALSE] IN
+         \* (the run of failed attempts ends when the link is reported CONNECTED, not here: the serial client's attempt may
+         \*  still fail on its configuration write)
+         ELSE LET m2 == [m1 EXCEPT !.cur = ev.k, !.curReported = FALSE, !.lastRefuseT = -1, !.faulted = FALSE] IN
                 IF m1.closeCalled THEN [m2 EXCEPT !.openedLate = @ \cup {ev.k}] ELSE m2
     [] ev.e = "Status" ->
          LET m2 == IF ev.s = m1.lastNote THEN Fail(m1, "C14.same-state-notified-twice") ELSE m1
              m3 == IF m2.closeCalled /\ ev.s # "CLOSED" THEN Fail(m2, "C14.notified-after-close") ELSE m2
              m4 == IF ev.s # ev.st THEN Fail(m3, "C14.notification-does-not-match-state") ELSE m3
              m5 == IF ev.s = "CONNECTED" /\ m4.cur = 0 THEN Fail(m4, "C13.CONNECTED-without-connection") ELSE m4
-         IN [m5 EXCEPT !.lastNote = ev.s, !.faulted = IF ev.s = "DISCONNECTED" THEN FALSE ELSE @]
+             m6 == IF ev.s = "CONNECTED" THEN [m5 EXCEPT !.curReported = TRUE, !.prevDelay = 0, !.lastRefuseT = -1] ELSE m5
+         IN [m6 EXCEPT !.lastNote = ev.s, !.faulted = IF ev.s = "DISCONNECTED" THEN FALSE ELSE @]
     [] ev.e = "ReadStart" ->
          LET m2 == IF ev.conn # m1.cur THEN Fail(m1, "C13.read-on-stale-connection") ELSE m1
              m3 == IF m2.reading # 0 /\ m2.reading # ev.conn THEN Fail(m2, "C13.two-receive-paths") ELSE m2
@@ -90,7 +96,12 @@ MonStep(m, ev) ==
          IF m1.reading = ev.conn THEN [m1 EXCEPT !.reading = 0] ELSE m1
     [] ev.e \in {"Fault", "WriteError"} ->
          \* (a fault on a link already reported as lost needs no second report)
-         LET m2 == [m1 EXCEPT !.dead = @ \cup {ev.conn}] IN
+         \* a write failing on the accepted link before it was ever reported CONNECTED: if another attempt follows without
+         \* the report in between, this attempt failed (the serial client's configuration write) and the pause before the
+         \* next one is judged like the pause after a refusal
+         LET m2 == [m1 EXCEPT !.dead = @ \cup {ev.conn},
+                              !.lastRefuseT = IF ev.e = "WriteError" /\ ev.conn = m1.cur /\ ~m1.curReported /\ ~m1.closeCalled
+                                              THEN ev.t ELSE @] IN
          IF ev.conn = m1.cur /\ ~m1.closeCalled /\ m1.lastNote # "DISCONNECTED"
          THEN [m2 EXCEPT !.faulted = TRUE] ELSE m2
     [] ev.e = "Deliver" ->
